@@ -54,7 +54,7 @@ func ParsePath(path string) (PropertyPath, error) {
 	}
 	parsed, err := Parse("", []byte(path))
 	if err != nil {
-		panic(err)
+		return nil, err
 	}
 
 	propertyPath := build(path, parsed)
